@@ -87,12 +87,12 @@ PROTOS_QUICK = ['pit-tcn', 'pit-cnn', 'mps-chan-gumbel', 'mps-layer-soft', 'sn-m
 PROTOS_THOROUGH = PROTOS_QUICK + ['pit-tcn-off', 'pit-cnn-foldbn', 'mps-1d-hard', 'mps-chan-noshare', 'sn-gumbel-hard']
 
 
-def build(name, E=None):
-    """-> (method, model (training mode), input batch)"""
+def build(name, E=None, seed=0):
+    """-> (method, model (training mode), input batch); weights and the input batch are drawn from `seed`"""
     E = E or env()
     torch = E['torch']
     TCN, CNN, QNet, QNet1d, SNet = _nets(E)
-    torch.manual_seed(11)
+    torch.manual_seed(11 + 1000 * int(seed))
     cost = {'p': E['params'], 'o': E['ops']}
     if name.startswith('pit-tcn'):
         kw = dict(train_features=False, train_dilation=False, discrete_cost=True) if name.endswith('off') else {}
@@ -340,6 +340,8 @@ def describe(method, model, x):
                 mk = getattr(layer, attr, None)
                 if mk is not None and type(layer).__name__ not in ('PITBatchNorm1d', 'PITBatchNorm2d'):
                     ids[attr] = pid[id(getattr(mk, a))]
+            if not ids and not hasattr(layer, 'discrete_cost'):
+                continue    # PITBatchNorm: yields no NAS parameter, has no switch
             layers.append({'name': ln, 'feat': ids.get('out_features_masker'), 'rf': ids.get('timestep_masker'), 'dil': ids.get('dilation_masker'),
                            'sel': None, 'other': [], 'disc': bool(getattr(layer, 'discrete_cost', False))})
             if hasattr(layer, 'discrete_cost'):
